@@ -344,7 +344,7 @@ def evaluate__array_put(self: XPathFunction, context: ta.ContextType = None) -> 
     if position <= 0:
         raise self.error('FOAY0001')
 
-    items = array_.items(context)
+    items = list(array_.items(context))
     try:
         items[position - 1] = member
     except IndexError:
@@ -368,7 +368,7 @@ def evaluate__array_insert_before(self: XPathFunction, context: ta.ContextType =
     if member is None:
         member = []
 
-    items = array_.items(context)
+    items = list(array_.items(context))
 
     if position <= 0 or position > len(items) + 1:
         raise self.error('FOAY0001')
@@ -395,7 +395,7 @@ def evaluate__array_append(self: XPathFunction, context: ta.ContextType = None) 
     if appendage is None:
         appendage = []
 
-    items = array_.items(context)
+    items = list(array_.items(context))
     items.append(appendage)
     return XPathArray(self.parser, items=items)
 
